@@ -119,23 +119,24 @@ Section Plume.
         else old
     end.
 
-  Definition plume_paint (g : @globals F) (sph : bool) (pl : plume_feature) (q : query)
+  Definition plume_paint (g : @globals F) (tape : nat -> F) (sph : bool) (pl : plume_feature) (q : query)
              (p : prop_req) (t : nat) (blk : list F) : list F * nat :=
     let rdc := plume_rel_distance pl (surf_point sph q) (q_depth q) in
     match p with
     | PTemp => ([fold_left (fun old m => ptemp_eval g pl q rdc m old) (pl_temp pl) (nth 0 blk f0)], t)
-    | PComp c => ([fold_left (fun old m => comp_eval sph q m c old) (pl_comp pl) (nth 0 blk f0)], t)
-    | PGrains c k => (fold_left (fun old m => grains_eval sph q m c k old) (pl_grains pl) blk, t)
+    | PComp c =>
+        let '(v, t') := fold_left (fun st m => comp_eval tape sph q m c st) (pl_comp pl) (nth 0 blk f0, t) in ([v], t')
+    | PGrains c k => fold_left (fun st m => grains_eval tape sph q m c k st) (pl_grains pl) (blk, t)
     | PTag => ([pl_tag pl], t)
     | PVel =>
         let '(vx, vy, vz) := fold_left (fun old m => vel_eval sph q m old) (pl_vel pl) (f0, f0, f0) in
         ([vx; vy; vz], t)
     end.
 
-  Definition plume_to_feature (g : @globals F) (sph : bool) (pl : plume_feature) : @feature F :=
+  Definition plume_to_feature (g : @globals F) (tape : nat -> F) (sph : bool) (pl : plume_feature) : @feature F :=
     {| ft_covers := plume_covers sph pl;
        ft_cov_err := fun _ => false;
        ft_paint_err := fun _ _ => false;
-       ft_paint := plume_paint g sph pl;
+       ft_paint := plume_paint g tape sph pl;
        ft_tag := pl_tag pl |}.
 End Plume.
